@@ -91,6 +91,27 @@ Qed.
 Lemma enabled0_wheld s e s' v : enabled s 0 e = Some s' -> wheld s' v = wheld s v.
 Proof. intro H. apply enabled_cases in H as [(_ & -> & ->)|[(_ & -> & ->)|(_ & -> & ->)]]; reflexivity. Qed.
 
+(* arithmetic of "how many sub-suites are started" *)
+Lemma started_le k n mt : k <= n -> (forall m, mt = Some m -> k <= m) -> k <= started n mt.
+Proof. intros Hkn Hmt. unfold started. destruct mt as [m|]; [specialize (Hmt m eq_refl); lia | exact Hkn]. Qed.
+Lemma started_eq_mt k n : k <= n -> started n (Some k) = k.
+Proof. intro H. unfold started. lia. Qed.
+Lemma started_lt k n mt : k < n -> (forall m, mt = Some m -> k <= m) -> mt <> Some k -> k < started n mt.
+Proof.
+  intros Hkn Hmt Hne. unfold started. destruct mt as [m|]; [|exact Hkn].
+  specialize (Hmt m eq_refl). assert (m <> k) by congruence. lia.
+Qed.
+Lemma started_all k n mt : k = n -> (forall m, mt = Some m -> k <= m) -> mt <> Some k ->
+  started n mt = k /\ mt_raises n mt = false.
+Proof.
+  intros Hkn Hmt Hne. unfold started, mt_raises. destruct mt as [m|]; [|split; [lia | reflexivity]].
+  specialize (Hmt m eq_refl). assert (m <> k) by congruence. split; [lia | apply Nat.leb_gt; lia].
+Qed.
+Lemma started_mt_bound j n mt m : j < started n mt -> mt = Some m -> S j <= m.
+Proof. intros H ->. unfold started in H. lia. Qed.
+Lemma started_lt_n j n mt : j < started n mt -> j < n.
+Proof. unfold started. destruct mt; lia. Qed.
+
 Definition cpend_join (c : cconf) : list nat := match k_main c with CMJoin w => [w] | _ => [] end.
 Definition holds0 (c : cconf) : bool := match k_main c with CMStopCall _ | CMStopRel _ _ => true | _ => false end.
 
@@ -105,7 +126,7 @@ Ltac rdc := unfold clog; rewrite ?putsq_snoc, ?gotten_snoc, ?spawns_snoc, ?joins
 Section Classic.
   Variable i : cinput.
   Let n := length (ci_suites i).
-  Let mt := ci_mt_raise i.
+  Local Notation mt := (ci_mt_raise i).
   Let K := started n mt.
 
   Definition cU (c : cconf) : list nat := unreaped_of K (joins (k_log c)).
@@ -239,4 +260,811 @@ Section Classic.
     - destruct (finished (cw_th wk) && negb (cw_put wk)); [|discriminate]. intro H; injection H as <-.
       prj. rewrite length_upd. rdc. repeat split; try reflexivity; auto.
   Qed.
+  Lemma cphase_frame c c' :
+    k_main c' = k_main c -> length (k_workers c') = length (k_workers c) ->
+    gotten (k_log c') = gotten (k_log c) -> joins (k_log c') = joins (k_log c) ->
+    has_intr (k_log c') = has_intr (k_log c) -> status_raised (k_log c') = status_raised (k_log c) ->
+    main_stops (k_log c') = main_stops (k_log c) ->
+    k_stops c' = k_stops c -> k_unreaped c' = k_unreaped c -> k_raised c' = k_raised c -> k_live c' = k_live c ->
+    (cphase c -> cphase c') /\ (crunning c -> crunning c') /\ cpend_join c' = cpend_join c /\ holds0 c' = holds0 c.
+  Proof.
+    intros Hm Hl Hg Hj Hi Hs Hms Hst Hu Hr Hlv.
+    unfold cphase, crunning, cpend_join, holds0, cU, craise_exp.
+    rewrite Hm, ?Hl, ?Hg, ?Hj, ?Hi, ?Hs, ?Hms, ?Hst, ?Hu, ?Hr, ?Hlv. auto.
+  Qed.
+
+  Lemma cstep_worker_inv c w c' : CInv c -> cstep_worker c w = Some c' -> CInv c'.
+  Proof.
+    intros [HB H0 Hj Hp Hr] Hs.
+    destruct (cstep_worker_frame c w c' Hs) as (F1 & F2 & F3 & F4 & F5 & F6 & F7 & F8 & F9 & F10 & F11 & F12).
+    destruct (cphase_frame c c' F1 F2 F3 F4 F5 F6 F7 F8 F9 F10 F11) as (P1 & P2 & P3 & P4).
+    constructor.
+    - eapply cbase_worker; eauto.
+    - rewrite P4, F12. exact H0.
+    - rewrite F4, P3, F3. exact Hj.
+    - auto.
+    - auto.
+  Qed.
+
+  (* ---- main appends an event that is not a spawn ---- *)
+  Lemma cbase_main_ev c c' e :
+    CBase c -> k_log c' = k_log c ++ [(0, e)] -> k_workers c' = k_workers c ->
+    own_thread K (0, e) = true ->
+    match e with
+    | CPut _ | CSpawn _ | CStatus _ _ _ _ _ _ => False
+    | CG g => enabled (k_sem c) 0 g = Some (k_sem c') /\ k_queue c' = k_queue c
+    | CGet q => k_sem c' = k_sem c /\ map QToken (k_queue c) = q :: map QToken (k_queue c')
+    | _ => k_sem c' = k_sem c /\ k_queue c' = k_queue c
+    end -> CBase c'.
+  Proof.
+    intros [Hle Hsp Hown Hns Hsw Htid Hthr Hmon Hfifo Hqo] El Ew Ho He.
+    assert (Hwh : forall v, wheld (k_sem c') v = wheld (k_sem c) v).
+    { intro v. destruct e; try contradiction; try (destruct He as [-> _]; reflexivity).
+      destruct He as [He _]. eapply enabled0_wheld; eauto. }
+    constructor; rewrite ?El, ?Ew.
+    - exact Hle.
+    - rewrite spawns_snoc. destruct e; try contradiction; rewrite app_nil_r; exact Hsp.
+    - rewrite forallb_snoc, Hown, Ho. reflexivity.
+    - rewrite status_raised_snoc, Hns. destruct e; try contradiction; reflexivity.
+    - destruct e; try contradiction; try (destruct He as [-> _]; exact Hsw).
+      destruct He as [He _]. apply enabled_cases in He as [(_ & _ & E)|[(_ & _ & E)|(_ & _ & E)]]; rewrite E; exact I.
+    - rewrite cg_log_snoc. destruct e; try contradiction; rewrite ?app_nil_r; try exact Htid.
+      apply Forall_app. split; [exact Htid|]. constructor; [simpl; lia | constructor].
+    - intros v wkv Hv. apply (WOK_main i (k_sem c)); [apply Hthr; exact Hv | apply Hwh |].
+      intros q Hq. subst e. contradiction.
+    - rewrite cg_log_snoc. destruct e; try contradiction; rewrite ?app_nil_r; try (destruct He as [-> _]; exact Hmon).
+      destruct He as [He _]. rewrite mon_app, Hmon. cbn [mon]. rewrite He. reflexivity.
+    - rewrite gotten_snoc, putsq_snoc. destruct e; try contradiction; rewrite ?app_nil_r; try (destruct He as [_ ->]; exact Hfifo).
+      destruct He as [_ He]. rewrite <- app_assoc. simpl. rewrite <- He. exact Hfifo.
+    - rewrite putsq_snoc. destruct e; try contradiction; rewrite app_nil_r; exact Hqo.
+  Qed.
+
+  Lemma holds0_sem c : CInv c -> holds0 c = false -> k_sem c <> Some 0.
+  Proof. intros HI Hh E. apply (cv_sem0 c HI) in E. congruence. Qed.
+
+  (* ---- the except clause ---- *)
+  Lemma cabort_inv c :
+    CBase c -> k_sem c <> Some 0 -> map QToken (joins (k_log c)) = gotten (k_log c) ->
+    length (k_workers c) = K -> craise_exp (k_log c) = true -> main_stops (k_log c) = [] -> k_stops c = [] ->
+    k_unreaped c = cU c -> CInv (cabort c).
+  Proof.
+    intros HB Hs Hj HL Hr Hm Hst Hu. unfold cabort. destruct (k_unreaped c) as [|u us] eqn:Eu.
+    - constructor.
+      + eapply cbase_same; [| | | |exact HB]; reflexivity.
+      + prj. unfold holds0. prj. split; [intro E; contradiction | discriminate].
+      + prj. unfold cpend_join. prj. rewrite app_nil_r. exact Hj.
+      + unfold cphase. prj. rewrite Hr, map_length. repeat split; try assumption.
+        unfold cU. prj. fold (cU c). rewrite <- Hu, Hst. destruct (stop_count (main_stops (k_log c)) (length (@nil nat))); reflexivity.
+      + unfold crunning. prj. exact I.
+    - constructor.
+      + eapply cbase_same; [| | | |exact HB]; reflexivity.
+      + prj. unfold holds0. prj. split; [intro E; contradiction | discriminate].
+      + prj. unfold cpend_join. prj. rewrite app_nil_r. exact Hj.
+      + unfold cphase, cU. prj. fold (cU c). rewrite Hst, Hm, <- Hu. repeat split; try assumption. discriminate.
+      + unfold crunning. prj. exact I.
+  Qed.
+
+  (* ---- after starting worker k-1 ---- *)
+  Lemma cafter_spawn_inv c k :
+    CBase c -> k_sem c <> Some 0 -> length (k_workers c) = k -> k <= n -> (forall m, mt = Some m -> k <= m) ->
+    gotten (k_log c) = [] -> joins (k_log c) = [] -> has_intr (k_log c) = false -> main_stops (k_log c) = [] ->
+    k_stops c = [] -> k_unreaped c = seq 0 k -> CInv (cafter_spawn i c k).
+  Proof.
+    intros HB Hs HL Hkn Hmt Hg Hj Hi Hm Hst Hu.
+    assert (HK : k <= K) by (unfold K; apply started_le; assumption).
+    unfold cafter_spawn.
+    destruct (option_eqb Nat.eqb mt (Some k)) eqn:Emt.
+    - apply (option_eqb_spec _ Nat.eqb_eq) in Emt.
+      assert (EK : K = k) by (unfold K; rewrite Emt; apply started_eq_mt; exact Hkn).
+      apply cabort_inv; try assumption.
+      + rewrite Hj, Hg. reflexivity.
+      + lia.
+      + unfold craise_exp, mt_raises. rewrite Emt.
+        replace (k <=? n) with true by (symmetry; apply Nat.leb_le; exact Hkn). reflexivity.
+      + unfold cU. rewrite Hj, unreaped_of_nil, EK. exact Hu.
+    - assert (Hne : mt <> Some k).
+      { intro E. rewrite E in Emt. simpl in Emt. rewrite Nat.eqb_refl in Emt. discriminate. }
+      destruct (k <? length (ci_suites i)) eqn:Elt.
+      + apply Nat.ltb_lt in Elt. fold n in Elt.
+        assert (HK' : k < K) by (unfold K; apply started_lt; assumption).
+        constructor.
+        * eapply cbase_same; [| | | |exact HB]; reflexivity.
+        * prj. unfold holds0. prj. split; [intro E; contradiction | discriminate].
+        * prj. unfold cpend_join. prj. rewrite Hj, Hg. reflexivity.
+        * unfold cphase. prj. auto.
+        * unfold crunning. prj. rewrite Hj, HL, unreaped_of_nil. auto.
+      + apply Nat.ltb_ge in Elt. fold n in Elt. assert (Ekn : k = n) by lia.
+        destruct (started_all k n mt Ekn Hmt Hne) as [EK Hnr]. fold K in EK.
+        destruct (k_unreaped c) as [|u us] eqn:Eu.
+        * assert (Hk0 : k = 0) by (rewrite <- (seq_length k 0), <- Hu; reflexivity).
+          constructor.
+          -- eapply cbase_same; [| | | |exact HB]; reflexivity.
+          -- prj. unfold holds0. prj. split; [intro E; contradiction | discriminate].
+          -- prj. unfold cpend_join. prj. rewrite Hj, Hg. reflexivity.
+          -- unfold cphase, craise_exp. prj. rewrite Hnr, Hi, (cb_nost c HB), map_length.
+             repeat split; try lia; try assumption.
+             destruct (k_workers c); [reflexivity | simpl in HL; lia].
+          -- unfold crunning. prj. exact I.
+        * constructor.
+          -- eapply cbase_same; [| | | |exact HB]; reflexivity.
+          -- prj. unfold holds0. prj. split; [intro E; contradiction | discriminate].
+          -- prj. unfold cpend_join. prj. rewrite Hj, Hg. reflexivity.
+          -- unfold cphase. prj. repeat split; try lia; try assumption. rewrite Eu; discriminate.
+          -- unfold crunning. prj. rewrite Hj, HL, unreaped_of_nil. repeat split; try assumption. rewrite Eu; exact Hu.
+  Qed.
+
+  Lemma cinit_inv : CInv (cinit i).
+  Proof.
+    unfold cinit. apply cafter_spawn_inv; prj; try reflexivity; try lia; try discriminate.
+    constructor; prj.
+    - simpl; lia.
+    - reflexivity.
+    - reflexivity.
+    - reflexivity.
+    - exact I.
+    - constructor.
+    - intros [|v0] wkv0 Hv0; discriminate.
+    - reflexivity.
+    - reflexivity.
+    - constructor.
+  Qed.
+
+  (* ---- main: start the next worker ---- *)
+  Lemma cstep_spawn_inv c j c' : CInv c -> k_main c = CMSpawn j -> cstep_main i c = Some c' -> CInv c'.
+  Proof.
+    intros HI Em. unfold cstep_main. rewrite Em.
+    destruct (nth_error (ci_suites i) j) as [[s fl]|] eqn:Es; [|discriminate]. cbv zeta. intro H; injection H as <-.
+    pose proof HI as [HB H0 Hj Hp Hr]. unfold cphase in Hp. unfold crunning in Hr. unfold cpend_join in Hj.
+    rewrite Em in Hp, Hr, Hj.
+    destruct Hp as (HjL & HjK & Hg). destruct Hr as (Hst & Hi & Hms & Hu).
+    simpl in Hj. rewrite Hg, app_nil_r in Hj. apply map_eq_nil in Hj.
+    assert (Hs0 : k_sem c <> Some 0) by (apply holds0_sem; [exact HI | unfold holds0; rewrite Em; reflexivity]).
+    assert (Hjn : j < n) by (apply nth_error_Some; congruence).
+    pose proof HB as [Hle Hsp Hown Hns Hsw Htid Hthr Hmon Hfifo Hqo].
+    apply cafter_spawn_inv; prj.
+    - constructor; prj; rewrite ?app_length; simpl length.
+      + lia.
+      + rdc. rewrite Hsp, <- HjL, Nat.add_1_r, seq_S. reflexivity.
+      + unfold clog. rewrite forallb_snoc, Hown. simpl. apply Nat.ltb_lt. exact HjK.
+      + rdc. exact Hns.
+      + destruct (k_sem c) as [[|v]|]; try exact I. lia.
+      + rdc. eapply Forall_impl; [|exact Htid]. simpl. intros; lia.
+      + intros v wkv Hv. apply nth_error_snoc in Hv as [[Hlt Hv]|[-> ->]].
+        * apply (WOK_main i (k_sem c)); [apply Hthr; exact Hv | reflexivity | discriminate].
+        * unfold WOK. prj.
+          assert (Hwh : wheld (k_sem c) (length (k_workers c)) = false).
+          { unfold wheld. destruct (k_sem c) as [[|v]|]; try reflexivity. apply Nat.eqb_neq. lia. }
+          rewrite Hwh. split; [apply init_thread_out|]. split; [discriminate|]. split.
+          -- rdc. apply fw_lt_nil. exact Hqo.
+          -- exists s, fl. split; [rewrite <- HjL; exact Es|]. unfold clog. rewrite proj_cg_snoc. simpl.
+             rewrite app_nil_r, proj_none; [constructor | exact Htid].
+      + rdc. exact Hmon.
+      + rdc. exact Hfifo.
+      + rdc. eapply Forall_impl; [|exact Hqo]. simpl. intros; lia.
+    - exact Hs0.
+    - rewrite app_length. simpl. lia.
+    - lia.
+    - intros m Hm. apply (started_mt_bound j n mt m HjK Hm).
+    - rdc. exact Hg.
+    - rdc. exact Hj.
+    - rdc. exact Hi.
+    - rdc. exact Hms.
+    - exact Hst.
+    - rewrite Hu, Hj, unreaped_of_nil, <- HjL, seq_S. reflexivity.
+  Qed.
+
+  (* ---- main: queue.get() ---- *)
+  Lemma cstep_get_inv c c' : CInv c -> k_main c = CMGet -> cstep_main i c = Some c' -> CInv c'.
+  Proof.
+    intros HI Em. unfold cstep_main. rewrite Em. cbv zeta.
+    pose proof HI as [HB H0 Hj Hp Hr]. unfold cphase in Hp. unfold crunning in Hr. unfold cpend_join in Hj.
+    rewrite Em in Hp, Hr, Hj.
+    destruct Hp as (HL & Hnr & Hune). destruct Hr as (Hst & Hi & Hms & Hu). simpl in Hj. rewrite app_nil_r in Hj.
+    assert (Hs0 : k_sem c <> Some 0) by (apply holds0_sem; [exact HI | unfold holds0; rewrite Em; reflexivity]).
+    destruct (option_eqb Nat.eqb (ci_get_intr i) (Some (k_gets c))).
+    - intro H; injection H as <-.
+      apply cabort_inv; prj.
+      + eapply (cbase_main_ev c _ CGetIntr); [exact HB | reflexivity | reflexivity | reflexivity | simpl; auto].
+      + exact Hs0.
+      + rdc. exact Hj.
+      + exact HL.
+      + unfold craise_exp. rdc. rewrite !orb_true_r. reflexivity.
+      + rdc. exact Hms.
+      + exact Hst.
+      + unfold cU. prj. rdc. rewrite Hu, HL. reflexivity.
+    - destruct (k_queue c) as [|w q] eqn:Eq; [discriminate|]. intro H; injection H as <-.
+      constructor.
+      + eapply (cbase_main_ev c _ (CGet (QToken w))); [exact HB | reflexivity | reflexivity | reflexivity |].
+        prj. split; [reflexivity|]. rewrite Eq. reflexivity.
+      + prj. unfold holds0. prj. split; [intro E; contradiction | discriminate].
+      + prj. unfold cpend_join. prj. rdc. rewrite map_app, Hj. reflexivity.
+      + unfold cphase. prj. auto.
+      + unfold crunning. prj. rdc. auto.
+  Qed.
+
+  Lemma join_bound c w : CBase c -> In (QToken w) (gotten (k_log c)) -> w < length (k_workers c).
+  Proof.
+    intros HB Hin. pose proof (cb_qown c HB) as Hq. rewrite <- (cb_fifo c HB) in Hq.
+    apply Forall_app in Hq as [Hq _]. rewrite Forall_forall in Hq. apply (Hq _ Hin).
+  Qed.
+
+  Lemma token_put c v wk : CBase c -> nth_error (k_workers c) v = Some wk -> In (QToken v) (putsq (k_log c)) -> cw_done wk = true.
+  Proof.
+    intros HB Hn Hin. destruct (cb_thr c HB v wk Hn) as (_ & H2 & H3 & _).
+    assert (Hf : In (QToken v) (fw v (putsq (k_log c)))) by (apply filter_In; split; [exact Hin | simpl; apply Nat.eqb_refl]).
+    rewrite H3 in Hf. unfold cw_done. destruct (cw_put wk); [|contradiction]. rewrite (H2 eq_refl). reflexivity.
+  Qed.
+
+  Lemma put_token c v wk : CBase c -> nth_error (k_workers c) v = Some wk -> cw_put wk = true -> In (QToken v) (putsq (k_log c)).
+  Proof.
+    intros HB Hn Hp. destruct (cb_thr c HB v wk Hn) as (_ & _ & H3 & _). rewrite Hp in H3.
+    assert (Hf : In (QToken v) (fw v (putsq (k_log c)))) by (rewrite H3; left; reflexivity).
+    apply filter_In in Hf. apply Hf.
+  Qed.
+
+  Lemma all_joined_done c : CBase c -> map QToken (joins (k_log c)) = gotten (k_log c) ->
+    unreaped_of (length (k_workers c)) (joins (k_log c)) = [] -> forallb cw_done (k_workers c) = true.
+  Proof.
+    intros HB Hj Hu. apply forallb_forall. intros wk Hin. apply In_nth_error in Hin as [v Hv].
+    assert (Hvk : v < length (k_workers c)) by (apply nth_error_Some; congruence).
+    pose proof (unreaped_nil_all _ _ Hu v Hvk) as Hm. apply memb_In in Hm.
+    apply (token_put c v wk HB Hv). rewrite <- (cb_fifo c HB). apply in_or_app. left. rewrite <- Hj. apply in_map. exact Hm.
+  Qed.
+
+  (* ---- main: thread.join() ---- *)
+  Lemma cstep_join_inv c w c' : CInv c -> k_main c = CMJoin w -> cstep_main i c = Some c' -> CInv c'.
+  Proof.
+    intros HI Em. unfold cstep_main. rewrite Em.
+    destruct (nth_error (k_workers c) w) as [wk|] eqn:En; [|discriminate].
+    destruct (cw_done wk) eqn:Ed; [|discriminate]. cbv zeta. intro H; injection H as <-.
+    pose proof HI as [HB H0 Hj Hp Hr]. unfold cphase in Hp. unfold crunning in Hr. unfold cpend_join in Hj.
+    rewrite Em in Hp, Hr, Hj.
+    destruct Hp as (HL & Hnr). destruct Hr as (Hst & Hi & Hms & Hu). simpl in Hj.
+    assert (Hw : w < length (k_workers c)) by (apply nth_error_Some; congruence).
+    assert (HB1 : forall m r lv,
+               CBase {| k_sem := k_sem c; k_log := clog c 0 (CJoin w); k_queue := k_queue c; k_main := m;
+                        k_unreaped := remove_nat w (k_unreaped c); k_workers := k_workers c; k_gets := k_gets c;
+                        k_mcalls := k_mcalls c; k_raised := r; k_stops := k_stops c; k_live := lv |}).
+    { intros. eapply (cbase_main_ev c _ (CJoin w)); [exact HB | reflexivity | reflexivity | | simpl; auto].
+      simpl. apply Nat.ltb_lt. lia. }
+    assert (Hu1 : remove_nat w (k_unreaped c) = unreaped_of (length (k_workers c)) (joins (k_log c) ++ [w])).
+    { rewrite Hu. apply unreaped_remove. }
+    prj. destruct (remove_nat w (k_unreaped c)) as [|u us] eqn:Eu.
+    - constructor.
+      + eapply cbase_same; [| | | |exact (HB1 CMDone false [])]; reflexivity.
+      + prj. unfold holds0. prj. split; [intro E | discriminate].
+        exfalso. eapply holds0_sem; [exact HI | unfold holds0; rewrite Em; reflexivity | exact E].
+      + prj. unfold cpend_join. prj. rdc. exact Hj.
+      + unfold cphase, craise_exp. prj. rdc. rewrite Hnr, Hi, (cb_nost c HB), map_length.
+        repeat split; try assumption.
+        rewrite forallb_map'. apply forallb_forall. intros x Hx. rewrite negb_involutive.
+        assert (Hall : forallb cw_done (k_workers c) = true).
+        { apply (all_joined_done _ (HB1 CMDone false [])); prj.
+          - rdc. exact Hj.
+          - rdc. rewrite <- Hu1. reflexivity. }
+        rewrite forallb_forall in Hall. apply Hall. exact Hx.
+      + unfold crunning. prj. exact I.
+    - constructor.
+      + eapply cbase_same; [| | | |exact (HB1 CMGet false [])]; reflexivity.
+      + prj. unfold holds0. prj. split; [intro E | discriminate].
+        exfalso. eapply holds0_sem; [exact HI | unfold holds0; rewrite Em; reflexivity | exact E].
+      + prj. unfold cpend_join. prj. rdc. exact Hj.
+      + unfold cphase. prj. repeat split; try assumption. discriminate.
+      + unfold crunning. prj. rdc. repeat split; try assumption.
+  Qed.
+
+  (* ---- main: the stop() calls of the except clause ---- *)
+  Lemma cstep_acq_inv c ws c' : CInv c -> k_main c = CMStopAcq ws -> cstep_main i c = Some c' -> CInv c'.
+  Proof.
+    intros HI Em. unfold cstep_main. rewrite Em.
+    destruct (k_sem c) eqn:Es; [discriminate|]. destruct ws as [|w rest]; [discriminate|]. intro H; injection H as <-.
+    pose proof HI as [HB H0 Hj Hp Hr]. unfold cphase in Hp. unfold cpend_join in Hj. rewrite Em in Hp, Hj.
+    destruct Hp as (HL & Hre & _ & Hsw & Hms). simpl in Hj. rewrite app_nil_r in Hj.
+    constructor.
+    - eapply (cbase_main_ev c _ (CG EAcq)); [exact HB | reflexivity | reflexivity | reflexivity |].
+      prj. rewrite Es. simpl. auto.
+    - prj. unfold holds0. prj. split; reflexivity.
+    - prj. unfold cpend_join. prj. rdc. exact Hj.
+    - unfold cphase, cU, craise_exp. prj. rdc. split; [exact HL|]. split; [exact Hre|].
+      exists (k_stops c), w, rest. repeat split; assumption.
+    - unfold crunning. prj. exact I.
+  Qed.
+
+  Lemma cstep_call_inv c ws c' : CInv c -> k_main c = CMStopCall ws -> cstep_main i c = Some c' -> CInv c'.
+  Proof.
+    intros HI Em. unfold cstep_main. rewrite Em. cbv zeta. intro H; injection H as <-.
+    pose proof HI as [HB H0 Hj Hp Hr]. unfold cphase in Hp. unfold cpend_join in Hj. rewrite Em in Hp, Hj.
+    destruct Hp as (HL & Hre & pre & w & rest & Ews & Hst & HU & Hms). simpl in Hj. rewrite app_nil_r in Hj.
+    assert (Es : k_sem c = Some 0) by (apply H0; unfold holds0; rewrite Em; reflexivity).
+    constructor.
+    - eapply (cbase_main_ev c _ (CG (ECall (TGuard GStop) _))); [exact HB | reflexivity | reflexivity | reflexivity |].
+      prj. rewrite Es. simpl. auto.
+    - prj. unfold holds0. prj. rewrite Es. split; reflexivity.
+    - prj. unfold cpend_join. prj. rdc. exact Hj.
+    - unfold cphase, cU, craise_exp. prj. rdc. split; [exact HL|]. split; [exact Hre|].
+      exists pre, w, rest. repeat split; try assumption. rewrite Hms. reflexivity.
+    - unfold crunning. prj. exact I.
+  Qed.
+
+  Lemma cstep_rel_inv c ws b c' : CInv c -> k_main c = CMStopRel ws b -> cstep_main i c = Some c' -> CInv c'.
+  Proof.
+    intros HI Em. unfold cstep_main. rewrite Em. cbv zeta. intro H; injection H as <-.
+    pose proof HI as [HB H0 Hj Hp Hr]. unfold cphase in Hp. unfold cpend_join in Hj. rewrite Em in Hp, Hj.
+    destruct Hp as (HL & Hre & pre & w & rest & Ews & Hst & HU & Hms). simpl in Hj. rewrite app_nil_r in Hj.
+    assert (Es : k_sem c = Some 0) by (apply H0; unfold holds0; rewrite Em; reflexivity).
+    assert (HB1 : forall m r lv,
+               CBase {| k_sem := None; k_log := clog c 0 (CG ERel); k_queue := k_queue c; k_main := m;
+                        k_unreaped := k_unreaped c; k_workers := k_workers c; k_gets := k_gets c;
+                        k_mcalls := k_mcalls c; k_raised := r; k_stops := k_stops c; k_live := lv |}).
+    { intros. eapply (cbase_main_ev c _ (CG ERel)); [exact HB | reflexivity | reflexivity | reflexivity |].
+      prj. rewrite Es. simpl. auto. }
+    unfold cU in HU.
+    assert (Hfin : (b = true \/ rest = []) ->
+              CInv (cfinish {| k_sem := None; k_log := clog c 0 (CG ERel); k_queue := k_queue c; k_main := k_main c;
+                               k_unreaped := k_unreaped c; k_workers := k_workers c; k_gets := k_gets c;
+                               k_mcalls := k_mcalls c; k_raised := k_raised c; k_stops := k_stops c;
+                               k_live := k_live c |} true)).
+    { intro Hc. constructor.
+      - eapply cbase_same; [| | | |exact (HB1 CMDone true [])]; reflexivity.
+      - prj. unfold holds0. prj. split; discriminate.
+      - prj. unfold cpend_join. prj. rdc. exact Hj.
+      - unfold cphase, cU, craise_exp. prj. rdc. rewrite map_length.
+        split; [exact HL|]. split; [symmetry; exact Hre|]. split; [exact HL|].
+        rewrite Hms, Hst, <- HU, Ews.
+        destruct Hc as [->| ->].
+        + rewrite stop_count_true. symmetry. apply firstn_snoc_exact.
+        + destruct b.
+          * rewrite stop_count_true. symmetry. apply firstn_snoc_exact.
+          * rewrite repeat_false_snoc, stop_count_false, firstn_all. reflexivity.
+      - unfold crunning. prj. exact I. }
+    subst ws. destruct b.
+    - apply Hfin. left; reflexivity.
+    - destruct rest as [|r rest'].
+      + apply Hfin. right; reflexivity.
+      + constructor.
+        * eapply cbase_same; [| | | |exact (HB1 (CMStopAcq (r :: rest')) false [])]; reflexivity.
+        * prj. unfold holds0. prj. split; discriminate.
+        * prj. unfold cpend_join. prj. rdc. exact Hj.
+        * unfold cphase, cU, craise_exp. prj. rdc. split; [exact HL|]. split; [exact Hre|].
+          split; [discriminate|]. split.
+          -- rewrite Hst, <- app_assoc. exact HU.
+          -- rewrite Hms, Hst, app_length, repeat_false_snoc. simpl. rewrite Nat.add_1_r. reflexivity.
+        * unfold crunning. prj. exact I.
+  Qed.
+
+  Lemma cstep_inv c t c' : CInv c -> cstep i c t = Some c' -> CInv c'.
+  Proof.
+    intros HI. destruct t as [|w]; simpl.
+    - destruct (k_main c) eqn:Em.
+      + eapply cstep_spawn_inv; eauto.
+      + eapply cstep_get_inv; eauto.
+      + eapply cstep_join_inv; eauto.
+      + eapply cstep_acq_inv; eauto.
+      + eapply cstep_call_inv; eauto.
+      + eapply cstep_rel_inv; eauto.
+      + unfold cstep_main. rewrite Em. discriminate.
+    - eapply cstep_worker_inv; eauto.
+  Qed.
+  (* ---- every step decreases a measure ---- *)
+  Definition wbound (sf : list rcall * list nat) : nat := call_bound * (length (fst sf) + length br_script) + 7.
+  Definition csum_from (j : nat) : nat := fold_right (fun sf a => wbound sf + a) 0 (skipn j (ci_suites i)).
+  Definition cmw (c : cconf) : nat :=
+    match k_main c with
+    | CMDone => 0
+    | CMStopRel ws _ => 3 * length ws + 1
+    | CMStopCall ws => 3 * length ws + 2
+    | CMStopAcq ws => 3 * length ws + 3
+    | CMGet => 5 + 3 * length (k_unreaped c)
+    | CMJoin _ => 6 + 3 * length (k_unreaped c)
+    | CMSpawn j => 6 + 3 * length (k_unreaped c) + csum_from j
+    end.
+  Definition wmeasure (wk : cworker) : nat := tmeasure (cw_th wk) + (if cw_put wk then 0 else 3).
+  Definition wsum (l : list cworker) : nat := fold_right (fun wk a => wmeasure wk + a) 0 l.
+  Definition cmeas (c : cconf) : nat := cmw c + 2 * length (k_queue c) + wsum (k_workers c).
+
+  Lemma csum_from_nth j sf : nth_error (ci_suites i) j = Some sf -> csum_from j = wbound sf + csum_from (S j).
+  Proof.
+    unfold csum_from. generalize (ci_suites i). induction j as [|j IH]; intros [|x l] H; simpl in *; try discriminate.
+    - injection H as ->. reflexivity.
+    - apply IH. exact H.
+  Qed.
+
+  Lemma wsum_app a b : wsum (a ++ b) = wsum a + wsum b.
+  Proof. induction a as [|x a IH]; simpl; [reflexivity | rewrite IH; lia]. Qed.
+
+  Lemma wsum_upd l d : forall w wk wk', nth_error l w = Some wk -> wmeasure wk' + d <= wmeasure wk ->
+    wsum (upd l w wk') + d <= wsum l.
+  Proof.
+    induction l as [|x l IH]; intros [|w] wk wk' H Hd; simpl in *; try discriminate.
+    - injection H as ->. lia.
+    - specialize (IH w wk wk' H Hd). lia.
+  Qed.
+
+  Lemma init_thread_measure s fl :
+    tmeasure (init_thread s fl (worker_fb (ci_base i))) <= call_bound * (length s + length br_script).
+  Proof.
+    unfold init_thread. eapply Nat.le_trans; [apply norm_measure|].
+    unfold tmeasure, worker_fb, call_bound. destruct (ci_base i); simpl; lia.
+  Qed.
+
+  Lemma cabort_meas c :
+    cmw (cabort c) <= 3 * length (k_unreaped c) + 3 /\ k_queue (cabort c) = k_queue c /\ k_workers (cabort c) = k_workers c.
+  Proof. unfold cabort. destruct (k_unreaped c) eqn:E; unfold cmw; prj; simpl; repeat split; lia. Qed.
+
+  Lemma cafter_spawn_meas c k :
+    cmw (cafter_spawn i c k) <= 6 + 3 * length (k_unreaped c) + csum_from k
+    /\ k_queue (cafter_spawn i c k) = k_queue c /\ k_workers (cafter_spawn i c k) = k_workers c.
+  Proof.
+    unfold cafter_spawn. destruct (option_eqb Nat.eqb mt (Some k)).
+    - destruct (cabort_meas c) as (A & B & C). repeat split; try assumption. lia.
+    - destruct (k <? length (ci_suites i)).
+      + unfold cmw; prj. repeat split; lia.
+      + destruct (k_unreaped c) eqn:E; unfold cmw; prj; rewrite ?E; repeat split; simpl; lia.
+  Qed.
+
+  Lemma cstep_measure c t c' : cstep i c t = Some c' -> cmeas c' < cmeas c.
+  Proof.
+    destruct t as [|w]; simpl.
+    - unfold cstep_main. destruct (k_main c) as [k| |w|ws|ws|ws b|] eqn:Em.
+      + destruct (nth_error (ci_suites i) k) as [[s fl]|] eqn:Es; [|discriminate]. cbv zeta. intro H; injection H as <-.
+        match goal with |- cmeas (cafter_spawn i ?c1 _) < _ => destruct (cafter_spawn_meas c1 (S k)) as (A & B & C) end.
+        assert (Hc0 : cmw c = 6 + 3 * length (k_unreaped c) + csum_from k) by (unfold cmw; rewrite Em; reflexivity).
+        unfold cmeas. rewrite B, C, Hc0, (csum_from_nth _ _ Es).
+        set (X := cmw (cafter_spawn i _ _)) in *. clearbody X. revert A. prj. rewrite wsum_app, app_length. simpl length.
+        pose proof (init_thread_measure s fl) as Hm. unfold wbound, wsum, wmeasure. prj. simpl fst. cbn [fold_right cw_th cw_put]. lia.
+      + destruct (option_eqb Nat.eqb (ci_get_intr i) (Some (k_gets c))).
+        * cbv zeta. intro H; injection H as <-.
+          match goal with |- cmeas (cabort ?c1) < _ => destruct (cabort_meas c1) as (A & B & C) end.
+          assert (Hc0 : cmw c = 5 + 3 * length (k_unreaped c)) by (unfold cmw; rewrite Em; reflexivity).
+          unfold cmeas. rewrite B, C, Hc0. set (X := cmw (cabort _)) in *. clearbody X. revert A. prj. lia.
+        * destruct (k_queue c) as [|w q] eqn:Eq; [discriminate|]. intro H; injection H as <-.
+          unfold cmeas, cmw. prj. rewrite Em. rewrite Eq. simpl length. lia.
+      + destruct (nth_error (k_workers c) w) as [wk|]; [|discriminate]. destruct (cw_done wk); [|discriminate].
+        cbv zeta. intro H; injection H as <-. prj.
+        pose proof (remove_nat_length w (k_unreaped c)) as Hl.
+        destruct (remove_nat w (k_unreaped c)) as [|u us] eqn:E; unfold cmeas, cmw; prj; rewrite Em, ?E; simpl length in *; lia.
+      + destruct (k_sem c); [discriminate|]. destruct ws as [|w rest]; [discriminate|]. intro H; injection H as <-.
+        unfold cmeas, cmw. prj. rewrite Em. lia.
+      + cbv zeta. intro H; injection H as <-. unfold cmeas, cmw. prj. rewrite Em. lia.
+      + cbv zeta. intro H; injection H as <-.
+        destruct b; [|destruct ws as [|x [|y l']]]; unfold cmeas, cmw; prj; rewrite Em; simpl length; lia.
+      + discriminate.
+    - unfold cstep_worker. destruct (nth_error (k_workers c) w) as [wk|] eqn:En; [|discriminate].
+      destruct (tstep (cw_th wk)) as [[e th']|] eqn:Et.
+      + destruct (enabled (k_sem c) (S w) e); [|discriminate]. intro H; injection H as <-.
+        unfold cmeas. prj.
+        match goal with |- cmw ?c1 + _ + _ < _ => assert (Hc : cmw c1 = cmw c) by reflexivity; rewrite Hc end.
+        assert (Hs : wsum (upd (k_workers c) w {| cw_th := th'; cw_put := cw_put wk |}) + 1 <= wsum (k_workers c)).
+        { eapply wsum_upd; [exact En|]. unfold wmeasure; prj. apply tstep_measure in Et. lia. }
+        lia.
+      + destruct (finished (cw_th wk) && negb (cw_put wk)) eqn:Ec; [|discriminate]. intro H; injection H as <-.
+        apply andb_true_iff in Ec as [_ Ec]. apply negb_true_iff in Ec.
+        unfold cmeas. prj.
+        match goal with |- cmw ?c1 + _ + _ < _ => assert (Hc : cmw c1 = cmw c) by reflexivity; rewrite Hc end.
+        assert (Hs : wsum (upd (k_workers c) w {| cw_th := cw_th wk; cw_put := true |}) + 3 <= wsum (k_workers c)).
+        { eapply wsum_upd; [exact En|]. unfold wmeasure; prj. rewrite Ec. lia. }
+        rewrite app_length. simpl length. lia.
+  Qed.
+
+  Lemma csum_le_fuel : 6 + csum_from 0 <= cfuel i.
+  Proof.
+    unfold csum_from, cfuel. simpl skipn. induction (ci_suites i) as [|sf l IH]; cbn [fold_right length]; [lia|].
+    unfold wbound, call_bound, br_script in *. cbn [length] in *. lia.
+  Qed.
+
+  Lemma cinit_measure : cmeas (cinit i) <= cfuel i.
+  Proof.
+    unfold cinit.
+    match goal with |- cmeas (cafter_spawn i ?c0 0) <= _ => destruct (cafter_spawn_meas c0 0) as (A & B & C) end.
+    unfold cmeas. rewrite B, C. revert A. prj. simpl. intro A. pose proof csum_le_fuel. lia.
+  Qed.
+
+  (* ---- somebody can always move ---- *)
+  Lemma clive c : CInv c -> call_done c = false -> exists t, t < cnthr c /\ cstep i c t <> None.
+  Proof.
+    intros HI Hnd. pose proof HI as [HB H0 Hj Hp Hr].
+    pose proof HB as [Hle Hsp Hown Hns Hsw Htid Hthr Hmon Hfifo Hqo].
+    destruct (k_sem c) as [[|w]|] eqn:Es.
+    - (* main holds the semaphore *)
+      exists 0. split; [unfold cnthr; lia|]. simpl. assert (Hh : holds0 c = true) by (apply H0; reflexivity).
+      unfold holds0 in Hh. unfold cstep_main. destruct (k_main c); try discriminate; cbv zeta; discriminate.
+    - (* worker w holds it *)
+      destruct (nth_error (k_workers c) w) as [wk|] eqn:En; [|apply nth_error_None in En; lia].
+      destruct (Hthr w wk En) as (H1 & _). simpl in H1. rewrite Nat.eqb_refl in H1.
+      destruct (t_in_can_step _ H1) as (e & th' & Hst & Hne).
+      exists (S w). split; [unfold cnthr; lia|]. simpl. unfold cstep_worker. rewrite En, Hst, Es.
+      destruct e; simpl; rewrite ?Nat.eqb_refl; congruence.
+    - (* it is free *)
+      unfold call_done in Hnd. destruct (forallb cw_done (k_workers c)) eqn:Ew.
+      + rewrite andb_true_r in Hnd. exists 0. split; [unfold cnthr; lia|]. simpl.
+        unfold cmain_done in Hnd. unfold cstep_main.
+        unfold cphase in Hp. unfold crunning in Hr. unfold cpend_join in Hj.
+        destruct (k_main c) as [k| |w|ws|ws|ws b|] eqn:Em; try discriminate.
+        * destruct Hp as (_ & HkK & _). apply started_lt_n in HkK.
+          destruct (nth_error (ci_suites i) k) as [[s fl]|] eqn:E; [cbv zeta; discriminate|].
+          apply nth_error_None in E. fold n in E. lia.
+        * destruct (option_eqb Nat.eqb (ci_get_intr i) (Some (k_gets c))); [cbv zeta; discriminate|].
+          destruct Hp as (HL & _ & Hune). destruct Hr as (_ & _ & _ & Hu).
+          destruct (k_unreaped c) as [|u us] eqn:Eu; [contradiction|].
+          assert (Hin : In u (unreaped_of (length (k_workers c)) (joins (k_log c)))) by (rewrite <- Hu; left; reflexivity).
+          unfold unreaped_of in Hin. apply filter_In in Hin as [Hseq Hnot]. apply in_seq in Hseq.
+          destruct (nth_error (k_workers c) u) as [wk|] eqn:En; [|apply nth_error_None in En; lia].
+          rewrite forallb_forall in Ew. pose proof (Ew _ (nth_error_In _ _ En)) as Hd.
+          unfold cw_done in Hd. apply andb_true_iff in Hd as [_ Hput].
+          pose proof (put_token c u wk HB En Hput) as Hq. rewrite <- Hfifo in Hq.
+          simpl in Hj. rewrite app_nil_r in Hj. rewrite <- Hj in Hq.
+          apply in_app_or in Hq as [Hq|Hq].
+          -- apply in_map_iff in Hq as (x & Hx & Hxin). injection Hx as ->. apply memb_In in Hxin.
+             rewrite Hxin in Hnot. discriminate.
+          -- destruct (k_queue c); [contradiction | discriminate].
+        * assert (Hw : w < length (k_workers c)).
+          { apply (join_bound c w HB). rewrite <- Hj. apply in_map. apply in_or_app. right. left. reflexivity. }
+          destruct (nth_error (k_workers c) w) as [wk|] eqn:En; [|apply nth_error_None in En; lia].
+          rewrite forallb_forall in Ew. rewrite (Ew _ (nth_error_In _ _ En)). cbv zeta. discriminate.
+        * destruct Hp as (_ & _ & Hne & _). rewrite Es. destruct ws; [contradiction | discriminate].
+      + destruct (forallb_false_nth _ _ Ew) as (w & wk & Hw & Hd). exists (S w). split.
+        * unfold cnthr. assert (w < length (k_workers c)) by (apply nth_error_Some; congruence). lia.
+        * simpl. unfold cstep_worker. rewrite Hw.
+          destruct (Hthr w wk Hw) as (H1 & H2 & _). simpl in H1.
+          destruct (finished (cw_th wk)) eqn:Ef.
+          -- rewrite (finished_no_step _ Ef). unfold cw_done in Hd. rewrite Ef in Hd. simpl in Hd. rewrite Hd. simpl. discriminate.
+          -- destruct (t_out_unfinished_acq _ H1 Ef) as [th' Hst]. rewrite Hst, Es. simpl. discriminate.
+  Qed.
+
+  Lemma crun_inv : CInv (crun i) /\ call_done (crun i) = true.
+  Proof.
+    unfold crun.
+    destruct (gfold_P (cstep i) cnthr CInv cmeas cstep_inv (fun c t c' _ H => cstep_measure c t c' H)
+                (ci_sched i) (cinit i) cinit_inv) as [H1 H2].
+    apply (gdrain_done (cstep i) cnthr CInv cmeas call_done cstep_inv (fun c t c' _ H => cstep_measure c t c' H) clive).
+    - exact H1.
+    - pose proof cinit_measure. lia.
+  Qed.
 End Classic.
+
+(* ====================================================================================== *)
+(* 3. what a worker does when it runs alone: its script up to the first forwarder call that  *)
+(*    raises, then the fallback scripts (the broken-runner ErrorHolder)                       *)
+(* ====================================================================================== *)
+Fixpoint pend (fl : list nat) (p : prog) (k : nat) : bool :=     (* does p end by raising *)
+  match p with
+  | PEnd => false
+  | PRaise => true
+  | PAcq r | PRel r | PLoc _ r => pend fl r k
+  | PCall _ h r => if memb k fl then pend fl h (S k) else pend fl r (S k)
+  end.
+
+Fixpoint ltrace (fl : list nat) (s : list rcall) (f : fwd) (k : nat) : list gev * fwd * nat * bool :=
+  match s with
+  | [] => ([], f, k, false)
+  | c :: r => let '(l, f', k') := ptrace fl (expand f c) f k in
+              if pend fl (expand f c) k then (l, f', k', true)
+              else let '(l2, f2, k2, b) := ltrace fl r f' k' in (l ++ l2, f2, k2, b)
+  end.
+
+Fixpoint rtrace (fl : list nat) (fbs : list (list rcall)) (f : fwd) (k : nat) : list gev :=
+  match fbs with
+  | [] => []
+  | s :: r => let '(l, f', k', b) := ltrace fl s f k in if b then l ++ rtrace fl r f' k' else l
+  end.
+
+Definition ctrace (fl : list nat) (p : prog) (s : list rcall) (fbs : list (list rcall)) (f : fwd) (k : nat) : list gev :=
+  let '(l, f', k') := ptrace fl p f k in
+  if pend fl p k then l ++ rtrace fl fbs f' k'
+  else let '(l2, f2, k2, b) := ltrace fl s f' k' in l ++ l2 ++ (if b then rtrace fl fbs f2 k2 else []).
+
+Definition ttrace2 (th : thread) (fbs : list (list rcall)) : list gev :=
+  ctrace (flt th) (pc th) (script th) fbs (Tfr.fw th) (ncall th).
+
+Lemma pend_settle fl p : forall f k, pend fl (fst (settle p f)) k = pend fl p k.
+Proof. induction p; intros f k; simpl; try reflexivity. apply IHp. Qed.
+
+Lemma ctrace_settle fl p s fbs f k : ctrace fl p s fbs f k = ctrace fl (fst (settle p f)) s fbs (snd (settle p f)) k.
+Proof. unfold ctrace. rewrite (ptrace_settle fl p f k), <- (pend_settle fl p f k). reflexivity. Qed.
+
+Lemma ctrace_end fl s fbs f k :
+  ctrace fl PEnd s fbs f k = (let '(l2, f2, k2, b) := ltrace fl s f k in l2 ++ (if b then rtrace fl fbs f2 k2 else [])).
+Proof. reflexivity. Qed.
+Lemma ctrace_raise fl s fbs f k : ctrace fl PRaise s fbs f k = rtrace fl fbs f k.
+Proof. reflexivity. Qed.
+Lemma ctrace_acq fl r s fbs f k : ctrace fl (PAcq r) s fbs f k = EAcq :: ctrace fl r s fbs f k.
+Proof.
+  unfold ctrace. simpl. destruct (ptrace fl r f k) as [[l f'] k']. destruct (pend fl r k); [reflexivity|].
+  destruct (ltrace fl s f' k') as [[[l2 f2] k2] b]. reflexivity.
+Qed.
+Lemma ctrace_rel fl r s fbs f k : ctrace fl (PRel r) s fbs f k = ERel :: ctrace fl r s fbs f k.
+Proof.
+  unfold ctrace. simpl. destruct (ptrace fl r f k) as [[l f'] k']. destruct (pend fl r k); [reflexivity|].
+  destruct (ltrace fl s f' k') as [[[l2 f2] k2] b]. reflexivity.
+Qed.
+Lemma ctrace_call fl c h r s fbs f k :
+  ctrace fl (PCall c h r) s fbs f k = ECall c (memb k fl) :: ctrace fl (if memb k fl then h else r) s fbs f (S k).
+Proof.
+  unfold ctrace. simpl. destruct (memb k fl).
+  - destruct (ptrace fl h f (S k)) as [[l f'] k']. destruct (pend fl h (S k)); [reflexivity|].
+    destruct (ltrace fl s f' k') as [[[l2 f2] k2] b]. reflexivity.
+  - destruct (ptrace fl r f (S k)) as [[l f'] k']. destruct (pend fl r (S k)); [reflexivity|].
+    destruct (ltrace fl s f' k') as [[[l2 f2] k2] b]. reflexivity.
+Qed.
+
+Lemma ltrace_cons fl c r f k : ltrace fl (c :: r) f k =
+  (let '(l, f', k') := ptrace fl (expand f c) f k in
+   if pend fl (expand f c) k then (l, f', k', true)
+   else let '(l2, f2, k2, b) := ltrace fl r f' k' in (l ++ l2, f2, k2, b)).
+Proof. reflexivity. Qed.
+
+Lemma load_ctrace fl fbs s : forall f k,
+  let '(p', s', f') := load false s f in ctrace fl PEnd s fbs f k = ctrace fl p' s' fbs f' k.
+Proof.
+  induction s as [|c r IH]; intros f k.
+  - reflexivity.
+  - rewrite load_cons, ctrace_end, ltrace_cons.
+    rewrite (ptrace_settle fl (expand f c) f k), <- (pend_settle fl (expand f c) f k).
+    pose proof (settle_not_loc (expand f c) f) as Hl.
+    destruct (settle (expand f c) f) as [p f1]. simpl fst in *; simpl snd in *.
+    destruct p.
+    + simpl. specialize (IH f1 k). destruct (load false r f1) as [[p' s'] f']. rewrite <- IH, ctrace_end.
+      destruct (ltrace fl r f1 k) as [[[l2 f2] k2] b]. reflexivity.
+    + reflexivity.
+    + unfold ctrace. destruct (ptrace fl (PAcq p) f1 k) as [[l f''] k']. destruct (pend fl (PAcq p) k); [reflexivity|].
+      destruct (ltrace fl r f'' k') as [[[l2 f2] k2] b]. rewrite <- app_assoc. reflexivity.
+    + unfold ctrace. destruct (ptrace fl (PRel p) f1 k) as [[l f''] k']. destruct (pend fl (PRel p) k); [reflexivity|].
+      destruct (ltrace fl r f'' k') as [[[l2 f2] k2] b]. rewrite <- app_assoc. reflexivity.
+    + unfold ctrace. destruct (ptrace fl (PCall c0 p1 p2) f1 k) as [[l f''] k']. destruct (pend fl (PCall c0 p1 p2) k); [reflexivity|].
+      destruct (ltrace fl r f'' k') as [[[l2 f2] k2] b]. rewrite <- app_assoc. reflexivity.
+    + exfalso; eapply Hl; reflexivity.
+Qed.
+
+Lemma resume_ctrace fl fbs : forall f k,
+  let '(p, s', f', fbs') := resume fbs f in rtrace fl fbs f k = ctrace fl p s' fbs' f' k.
+Proof.
+  induction fbs as [|s r IH]; intros f k.
+  - reflexivity.
+  - rewrite resume_cons. pose proof (load_ctrace fl r s f k) as HL.
+    destruct (load false s f) as [[p s'] f'].
+    assert (E : rtrace fl (s :: r) f k = ctrace fl PEnd s r f k).
+    { rewrite ctrace_end. simpl. destruct (ltrace fl s f k) as [[[l2 f2] k2] b].
+      destruct b; [reflexivity | rewrite app_nil_r; reflexivity]. }
+    rewrite E, HL. destruct p; try reflexivity.
+    specialize (IH f' k). destruct (resume r f') as [[[p0 s0] f0] fbs0]. rewrite ctrace_raise. exact IH.
+Qed.
+
+Lemma norm_ctrace th fbs : fb th = Some fbs ->
+  exists fbs', fb (norm th) = Some fbs' /\ ttrace2 (norm th) fbs' = ttrace2 th fbs.
+Proof.
+  intro Hb. unfold ttrace2 at 2. rewrite ctrace_settle. unfold norm. rewrite Hb.
+  pose proof (settle_not_loc (pc th) (Tfr.fw th)) as Hl.
+  destruct (settle (pc th) (Tfr.fw th)) as [p f]. simpl fst in *; simpl snd in *.
+  destruct p.
+  - pose proof (load_ctrace (flt th) fbs (script th) f (ncall th)) as HL.
+    destruct (load false (script th) f) as [[p' s'] f'].
+    destruct p'; try (eexists; split; [reflexivity | unfold ttrace2; simpl; symmetry; exact HL]).
+    pose proof (resume_ctrace (flt th) fbs f' (ncall th)) as HR.
+    destruct (resume fbs f') as [[[p'' s''] f''] fbs']. eexists; split; [reflexivity|].
+    unfold ttrace2; simpl. rewrite HL, ctrace_raise. symmetry; exact HR.
+  - pose proof (resume_ctrace (flt th) fbs f (ncall th)) as HR.
+    destruct (resume fbs f) as [[[p'' s''] f''] fbs']. eexists; split; [reflexivity|].
+    unfold ttrace2; simpl. rewrite ctrace_raise. symmetry; exact HR.
+  - eexists; split; reflexivity.
+  - eexists; split; reflexivity.
+  - eexists; split; reflexivity.
+  - exfalso; eapply Hl; reflexivity.
+Qed.
+
+Lemma tstep_ctrace th fbs e th' : fb th = Some fbs -> tstep th = Some (e, th') ->
+  exists fbs', fb th' = Some fbs' /\ ttrace2 th fbs = e :: ttrace2 th' fbs'.
+Proof.
+  intros Hb. unfold tstep. destruct (pc th) eqn:E; try discriminate; intro H; injection H as <- <-.
+  - destruct (norm_ctrace (set_pc th p (ncall th)) fbs Hb) as (fbs' & Hf & Ht). exists fbs'. split; [exact Hf|].
+    rewrite Ht. unfold ttrace2. simpl. rewrite E. apply ctrace_acq.
+  - destruct (norm_ctrace (set_pc th p (ncall th)) fbs Hb) as (fbs' & Hf & Ht). exists fbs'. split; [exact Hf|].
+    rewrite Ht. unfold ttrace2. simpl. rewrite E. apply ctrace_rel.
+  - destruct (norm_ctrace (set_pc th (if faulty th then p1 else p2) (S (ncall th))) fbs Hb) as (fbs' & Hf & Ht).
+    exists fbs'. split; [exact Hf|]. rewrite Ht. unfold ttrace2. simpl. rewrite E. unfold faulty. apply ctrace_call.
+Qed.
+
+Lemma tpath_ctrace a l b : tpath a l b -> forall fbs, fb a = Some fbs ->
+  exists fbs', fb b = Some fbs' /\ ttrace2 a fbs = l ++ ttrace2 b fbs'.
+Proof.
+  induction 1 as [th|a l b e c Hp IH Hs]; intros fbs Hb.
+  - exists fbs. split; [exact Hb | reflexivity].
+  - destruct (IH fbs Hb) as (fb1 & Hb1 & E1). destruct (tstep_ctrace _ _ _ _ Hb1 Hs) as (fb2 & Hb2 & E2).
+    exists fb2. split; [exact Hb2|]. rewrite E1, E2, <- app_assoc. reflexivity.
+Qed.
+
+Lemma finished_ctrace th fbs : tnf th -> finished th = true -> ttrace2 th fbs = [].
+Proof.
+  intros [_ Hs] Hf. unfold finished in Hf. unfold ttrace2. destruct (pc th) eqn:E; try discriminate.
+  rewrite (Hs eq_refl). reflexivity.
+Qed.
+
+(* the whole of a finished worker's log *)
+Lemma worker_log_complete s fl fbs lg th :
+  tpath (init_thread s fl (Some fbs)) lg th -> tnf th -> finished th = true ->
+  lg = ctrace fl PEnd s fbs fwd0 0.
+Proof.
+  intros Hp Hn Hf.
+  destruct (norm_ctrace {| pc := PEnd; script := s; Tfr.fw := fwd0; ncall := 0; flt := fl; fb := Some fbs |} fbs eq_refl)
+    as (fb0 & Hb0 & E0).
+  destruct (tpath_ctrace _ _ _ Hp fb0 Hb0) as (fb1 & _ & E1).
+  rewrite (finished_ctrace th fb1 Hn Hf), app_nil_r in E1. rewrite <- E1. unfold init_thread. rewrite E0. reflexivity.
+Qed.
+
+(* ---- without faults of the caller's result only a raise in the script ends a forwarder call badly ---- *)
+Lemma pend_calls_then_nofault cs h r : forall k, pend [] (calls_then cs h r) k = pend [] r (k + length cs).
+Proof.
+  induction cs as [|c cs IH]; intro k; simpl; [rewrite Nat.add_0_r; reflexivity|].
+  rewrite IH. f_equal. lia.
+Qed.
+
+Lemma pend_nofault f c k : c <> RRaise -> pend [] (expand f c) k = false.
+Proof.
+  intro Hne. destruct c as [a|tn tg|n|n|kd n|g|]; try reflexivity.
+  - rewrite expand_outcome. simpl. rewrite pend_calls_then_nofault. reflexivity.
+  - destruct g; reflexivity.
+  - contradiction.
+Qed.
+
+Lemma strace_cons fl c r f k :
+  strace fl (c :: r) f k = (let '(l, f', k') := ptrace fl (expand f c) f k in l ++ strace fl r f' k').
+Proof. reflexivity. Qed.
+
+Lemma ltrace_before_raise s : forall f k,
+  exists f' k', ltrace [] s f k = (strace [] (fst (before_raise s)) f k, f', k', snd (before_raise s)).
+Proof.
+  induction s as [|c r IH]; intros f k.
+  - exists f, k. reflexivity.
+  - assert (G : c <> RRaise ->
+               exists f' k', ltrace [] (c :: r) f k
+                 = (strace [] (c :: fst (before_raise r)) f k, f', k', snd (before_raise r))).
+    { intro Hne. rewrite ltrace_cons, strace_cons, (pend_nofault f c k Hne).
+      destruct (ptrace [] (expand f c) f k) as [[l f1] k1].
+      destruct (IH f1 k1) as (f' & k' & E). rewrite E. exists f', k'. reflexivity. }
+    destruct c as [a|tn tg|n|n|kd n|g|];
+      try (simpl before_raise; destruct (before_raise r) as [p b]; apply G; discriminate).
+    exists f, k. reflexivity.
+Qed.
+
+(* ---- the broken-runner test ---- *)
+Lemma before_raise_br : before_raise br_script = (br_script, false).
+Proof. reflexivity. Qed.
+
+Lemma br_trace f k : exists body, rtrace [] [br_script] f k = section body /\ br_body_okb body = true.
+Proof.
+  set (f2 := apply_lop LStartTest (apply_lop (LTags [] []) f)).
+  assert (E : rtrace [] [br_script] f k =
+              (let '(l, f', k') := ptrace [] (expand f2 (ROutcome KError br_id)) f2 k in l ++ [])).
+  { change (rtrace [] [br_script] f k)
+      with (let '(l, f', k', b) := ltrace [] br_script f k in if b then l ++ rtrace [] [] f' k' else l).
+    destruct (ltrace_before_raise br_script f k) as (f' & k' & E). rewrite E, before_raise_br.
+    simpl snd. simpl fst. cbv iota. reflexivity. }
+  destruct (ptrace_outcome [] f2 KError br_id k) as (f' & E2 & _). rewrite E2 in E. rewrite E, app_nil_r.
+  rewrite cut_nofault. simpl fst.
+  eexists. split; [reflexivity|].
+  unfold replay. destruct (any_tags (f_global f2)), (any_tags (f_test f2)); reflexivity.
+Qed.
+
+Lemma skipn_length_app {A} (a b : list A) : skipn (length a) (a ++ b) = b.
+Proof. induction a as [|x a IH]; simpl; [reflexivity | exact IH]. Qed.
+
+Lemma gev_eqb_refl e : gev_eqb e e = true.
+Proof. apply gev_eqb_spec. reflexivity. Qed.
+
+(* the clause of the statement about one worker that is not hit by faults of the caller's result *)
+Lemma classic_worker_clause base lg w s :
+  lg = ctrace [] PEnd s (match worker_fb base with Some x => x | None => [] end) fwd0 0 ->
+  forall full, proj (S w) full = lg -> classic_worker_okb base full w (s, []) = true.
+Proof.
+  intros E full Hproj. unfold classic_worker_okb. simpl fst; simpl snd.
+  destruct (ltrace_before_raise s fwd0 0) as (f' & k' & El).
+  destruct (before_raise s) as [pre raises] eqn:Eb. simpl fst in El; simpl snd in El.
+  destruct (wf_script Out pre) eqn:Ew; [|reflexivity].
+  rewrite Hproj, E, ctrace_end, El, (strace_expected [] pre Out fwd0 sst0 0 Ew rel0).
+  unfold worker_fb. destruct raises; destruct base; simpl andb; cbv iota.
+  - simpl rtrace. rewrite app_nil_r. apply (list_eqb_spec _ gev_eqb_spec). reflexivity.
+  - destruct (br_trace f' k') as (body & -> & Hb).
+    rewrite (is_prefix_app _ gev_eqb_refl), skipn_length_app. simpl.
+    rewrite rev_app_distr. simpl. rewrite rev_involutive. exact Hb.
+  - rewrite app_nil_r. apply (list_eqb_spec _ gev_eqb_spec). reflexivity.
+  - rewrite app_nil_r. apply (list_eqb_spec _ gev_eqb_spec). reflexivity.
+Qed.
